@@ -82,7 +82,9 @@ func analyseErrUses(fn *ssa.Function) []*ErrUse {
 			continue
 		}
 		u.Err = errValueOfCall(call)
-		if u.Err == nil {
+		if u.Err == nil || len(referrersOf(u.Err)) == 0 {
+			// assigned to the blank identifier or never extracted
+			u.Err = nil
 			u.Discarded = true
 			continue
 		}
